@@ -395,7 +395,8 @@ def cases(draw):
     if shape == 'nearly_flat':
         e0 = 2.5e6
     e = build_curve(draw(st.integers(0, 2 ** 31)), n, shape, e0)
-    whole = e0 >= 1e4 and draw(st.sampled_from([False, False, False, True]))
+    # (only while every value fits a 64-bit integer column exactly: larger Python ints become an object column)
+    whole = e0 >= 1e4 and max(e) < 2.0 ** 53 and draw(st.sampled_from([False, False, False, True]))
     if whole:
         # equity recorded in whole currency units: an integer column
         e = [max(1, int(round(x))) for x in e]
